@@ -133,6 +133,6 @@ RULE = (
     "payload sizes 0..max, every case decrypted by the peer context and by the Lean/independent pipeline, plus a "
     "single-bit alteration of each.  bit-flip oracle: every datagram of recorded handshakes (3 suites x 2 "
     "versions, with Retry) and post-handshake flights before/after a key update; quick = every header byte "
-    "^0x01/^0x80/^0xff + PRNG sample of bit positions, thorough = every bit.  Non-trivial = a case whose packet "
+    "^0x01/^0x80/^0xff + PRNG sample of bit positions, thorough = every bit; plus, with FRESH endpoints per alteration (one altered packet first, then the genuine datagram, then the handshake must complete as in the control run): every header byte (first byte, version, DCID, SCID, token, length, pn) ^0x01/^0x80 of the first client datagram at a fresh server (v1, v2), of the first server datagram at the client and of a Retry; and every decrypt attempt of a first-flight server must use Initial keys derived from that packet's own DCID (tie of RecvGate.serverInit).  Non-trivial = a case whose packet "
     "is accepted by the peer (round trip) or an altered packet that reached the decrypt decision."
 )
